@@ -26,6 +26,9 @@ std::vector<std::shared_ptr<Packet>> Decoder::decode(const void* data, const std
     auto packetPtr = reinterpret_cast<const uint8_t*>(header + 1);
     int curSize = static_cast<int>(size - sizeof(CmpHeader));
     std::shared_ptr<Packet> packet;
+    if (curSize == 0)
+        segmentedPackets.erase({deviceId, streamId});
+
     while (curSize > 0)
     {
         if (!Packet::isValidPacket(packetPtr, curSize))
